@@ -2779,3 +2779,78 @@ def _other_seed(c):
 
 
 JUNK["consistent_hash_store"] = _other_seed
+
+
+# A reusable scenario definition, as user code would keep it: the node names of the cluster live in one module-level
+# list that every build of the family hands to its fault spec (the builder itself never mutates it).
+CLUSTER_NODES = ["n0", "n1", "n2", "n3", "n4"]
+
+
+@family("random_partition_shared_spec", "strkeys", "modrng")
+def f_random_partition_shared_spec(case):
+    """Full mesh of five nodes pinging each other while a recurring RandomPartition fault splits and heals the cluster; the
+    fault is built from the shared module-level ``CLUSTER_NODES`` list, so a second build in the same interpreter starts
+    from the same spec objects (C03 runs the family once as junk before the batch in W1)."""
+    from happysimulator.components.network.link import NetworkLink
+    from happysimulator.components.network.network import Network
+    from happysimulator.faults import FaultSchedule, RandomPartition
+    k = K(case)
+    net = Network("net")
+    nodes = []
+
+    def node_fn(self, e):
+        md = e.context.get("metadata", {})
+        if e.event_type == "Kick":
+            dst = nodes[(nodes.index(self) + 1 + md.get("i", 0) % 4) % len(nodes)]
+            return [net.send(self, dst, "Ping", payload={"i": md.get("i", 0)})]
+        self.log.append((e.event_type, md.get("source"), self.now.nanoseconds // TICK))
+        return None
+    nodes += [Proc(name, node_fn) for name in CLUSTER_NODES]
+    for i, a in enumerate(nodes):
+        for b in nodes[i + 1:]:
+            net.add_bidirectional_link(a, b, NetworkLink(f"l-{a.name}-{b.name}", latency=ConstantLatency(ticks(1 + (k[0] + i) % 2))))
+    sched = FaultSchedule()
+    sched.add(RandomPartition(CLUSTER_NODES, mtbf=ticks(6 + k[1] % 10), mttr=ticks(4 + k[2] % 8), seed=xseed(case, k[3]), network_name="net"))
+    sim = Simulation(entities=[net] + nodes, fault_schedule=sched, end_time=T(160))
+    for t in range(150):
+        sim.schedule(Event(time=T(1 + t), event_type="Kick", target=nodes[t % len(nodes)], context={"metadata": {"i": t}}))
+    return Scenario(sim, workload=150, extra=lambda: {"logs": [n.log for n in nodes], "dropped": net.events_dropped_partition})
+
+
+JUNK["random_partition_shared_spec"] = lambda c: dict(c, k=[c["k"][0], c["k"][1] + 3, c["k"][2] + 1] + list(c["k"][3:]))
+
+
+@family("lsm_absent_reads", "strkeys")
+def f_lsm_absent_reads(case):
+    """An LSM tree with a small memtable is loaded (a dozen flushes), then two readers look up several hundred keys that
+    were never written: every lookup consults the Bloom filter of every SSTable, and which absent keys are false
+    positives decides the read I/O times and ``bloom_filter_saves``."""
+    from happysimulator.components.storage import lsm_tree as lt
+    k = K(case)
+    strat = [lt.SizeTieredCompaction(min_sstables=4 + k[1] % 3), lt.LeveledCompaction(level_0_max=4, size_ratio=4, base_size_keys=8),
+             lt.FIFOCompaction(max_total_sstables=12)][k[0] % 3]
+    lsm = lt.LSMTree("lsm", memtable_size=3 + k[2] % 3, compaction_strategy=strat, sstable_read_latency=ticks(1), sstable_write_latency=ticks(1),
+                     max_levels=3)
+    present = [f"user:{i:03d}" for i in range(36 + k[3] % 12)]
+
+    def loader(self, e):
+        for i, key in enumerate(present):
+            yield from lsm.put(key, i)
+        self.log.append("loaded")
+
+    def reader(self, e):
+        base = 1000 * (1 + e.context["w"])
+        found = 0
+        for i in range(260):
+            v = yield from lsm.get(f"ghost:{base + i}")
+            found += v is not None
+            if i % 40 == 0:
+                v = yield from lsm.get(present[i % len(present)])
+        self.log.append(("found", found, self.now.nanoseconds // TICK))
+    ld = Proc("loader", loader)
+    rds = [Proc(f"reader{i}", reader) for i in range(2)]
+    sim = mksim([lsm, ld] + rds, 3000, events=[ev(1, ld, "Start")] + [ev(400 + i, r, "Start", w=i) for i, r in enumerate(rds)])
+    return Scenario(sim, workload=600, extra=lambda: {"logs": [r.log for r in rds], "lsm": lsm.stats, "levels": lsm.level_summary})
+
+
+JUNK["lsm_absent_reads"] = lambda c: dict(c, k=[c["k"][0] + 1, c["k"][1], c["k"][2] + 1] + list(c["k"][3:]))
